@@ -6,4 +6,5 @@ export GOFLAGS=-mod=mod GOPROXY=off GOSUMDB=off GOTOOLCHAIN=local
 mkdir -p bin evidence replays
 ( cd mc && cp /repo/go.sum go.sum && go build -tags verif -o ../bin/mc ./cmd/mc )
 ( cd /repo && go build -tags verif -o /verif/bin/yq . )
+( cd mc && go build -race -tags verif -o ../bin/mc-race ./cmd/mc ) || echo "note: -race build not available"
 echo setup ok
